@@ -45,10 +45,8 @@
             metrics: Arc::new(Metrics::noop()),
         });
         let _ = probe.inner.set(cache.inner.clone());
-        let k1: u8 = kani::any();
-        let k2: u8 = kani::any();
-        let e1 = cache.insert(k1, 1);
-        let e2 = cache.insert(k2, 2);          // evicts or replaces the first entry: listener runs
-        let r = cache.remove(&k2);             // Remove notification
-        std::mem::forget((e1, e2, r, cache, probe));
+        let same: bool = kani::any();
+        let e1 = cache.insert(1, 1);
+        let e2 = cache.insert(if same { 1 } else { 2 }, 2); // replaces or evicts the first entry: listener runs
+        std::mem::forget((e1, e2, cache, probe));
     }
